@@ -22,6 +22,11 @@ exactly the full model's errors, positional reads are `get_state_variable` / `ge
 With a repeated name the layers disagree (`search_state_layer_duplicate_name_counterexample`); the
 full model is the one that follows the Rust constructors there.
 
+Part D (coverage follow-up): the remaining arms of the anchor files — wrong-kind getters and codecs of
+`state_feature.rs` / `custom_feature_format.rs`, the serde derives and `TryFrom<&Value> for StateModel`
+(`Model/StateJson.lean`), `collect_features` in declaration order on the raw query,
+`SearchApp::build_search_instance`, and the two arms shown unreachable.
+
 History (key `container/new-duplicate-key`, repaired in /repo 6da9498): `CompactOrderedHashMap::new`
 on a list with a repeated key used to keep each surviving key's enumerate position (gaps in the stored
 indices: `len = 1`, empty iteration).  `new` now inserts one by one in that case; `new_refines` below
@@ -31,6 +36,7 @@ holds for EVERY entry list, and the old witnesses are positive theorems (`new_du
 import Compass.Proofs.Container
 import Compass.Proofs.StateModel
 import Compass.Proofs.StateRefine
+import Compass.Model.StateJson
 import Compass.Props.C09
 
 namespace Compass
@@ -1007,6 +1013,532 @@ theorem search_state_layer_duplicate_name_counterexample :
   decide +kernel
 
 end searchexamples
+
+/-! ## Part D — the remaining arms of the anchor files (coverage follow-up)
+
+Every function and arm of `compact_ordered_hash_map.rs`, `state_model.rs`, `state_feature.rs`,
+`custom_feature_format.rs`, `search_app_ops.rs` and `SearchApp::build_search_instance` is reached by a
+case stream of `harness/src/c11.rs`, except two arms that the theorems below show unreachable:
+the `else { None }` of `CompactOrderedHashMapIter::next` (`iter_never_stops_early`) and the
+unknown-name closure of the private `StateModel::update_state` (`update_state_unknown_name_unreachable`). -/
+
+section partD
+variable {K V : Type} [DecidableEq K]
+
+/-- `CompactOrderedHashMapIter::next`: under the invariant `get_pair(index)` is `Some` for every
+    `index < len`, so the iterator only ever stops through its first test (`index >= len`) -/
+theorem iter_never_stops_early (c : Container K V) (h : Inv c) (i : Nat) (hi : i < c.len) :
+    (c.getPair i).isSome = true := by
+  rw [getPair_abs h, len_abs h] at *
+  simp [hi]
+
+/-- in every representation, invariant or not, a key has a stored index exactly when it has a value -/
+theorem get_index_some_iff_get_some (c : Container K V) (k : K) :
+    (c.getIndex k).isSome = (c.get k).isSome := by
+  cases c with
+  | n m => simp [Container.getIndex, Container.get]
+  | one k1 v1 =>
+    simp only [Container.getIndex, Container.get, eq_comm (a := k)]
+    split_ifs <;> rfl
+  | two k1 k2 v1 v2 =>
+    simp only [Container.getIndex, Container.get, eq_comm (a := k)]
+    split_ifs <;> rfl
+  | three k1 k2 k3 v1 v2 v3 =>
+    simp only [Container.getIndex, Container.get, eq_comm (a := k)]
+    split_ifs <;> rfl
+  | four k1 k2 k3 k4 v1 v2 v3 v4 =>
+    simp only [Container.getIndex, Container.get, eq_comm (a := k)]
+    split_ifs <;> rfl
+
+end partD
+
+section partDstate
+variable {α : Type}
+open StateModel
+
+/-- the unknown-name arm of the private `update_state` cannot be taken: all its callers first obtained
+    the feature by the same name (`get_feature(name)?`), and a name that has a feature has a slot -/
+theorem update_state_unknown_name_unreachable (m : StateModel α) (name : String) (f : StateFeature α)
+    (hf : m.getFeature name = .ok f) (st : List α) (v : α) :
+    m.updateState st name v ≠ .error .unknownName := by
+  have hg : m.map.get name = some f := getFeature_ok.mp hf
+  have hs := get_index_some_iff_get_some m.map name
+  rw [hg] at hs
+  simp only [StateModel.updateState]
+  cases hi : m.map.getIndex name with
+  | none => rw [hi] at hs; cases hs
+  | some i => cases hq : st[i]? <;> simp [hq]
+
+/-! ### `state_feature.rs`: every getter answers exactly for its own kind -/
+
+theorem get_distance_unit_ok_iff (f : StateFeature α) (u : DistanceUnit) :
+    f.getDistanceUnit = .ok u ↔ ∃ i, f = .distance u i := by
+  cases f <;> simp [StateFeature.getDistanceUnit]
+
+theorem get_time_unit_ok_iff (f : StateFeature α) (u : TimeUnit) :
+    f.getTimeUnit = .ok u ↔ ∃ i, f = .time u i := by
+  cases f <;> simp [StateFeature.getTimeUnit]
+
+theorem get_energy_unit_ok_iff (f : StateFeature α) (u : EnergyUnit) :
+    f.getEnergyUnit = .ok u ↔ ∃ i, f = .energy u i := by
+  cases f <;> simp [StateFeature.getEnergyUnit]
+
+theorem get_custom_feature_format_ok_iff (f : StateFeature α) (fmt : CustomFeatureFormat α) :
+    f.getCustomFeatureFormat = .ok fmt ↔ ∃ t u, f = .custom t u fmt := by
+  cases f <;> simp [StateFeature.getCustomFeatureFormat]
+
+/-- the only error of the four getters is `UnexpectedFeatureUnit` -/
+theorem getter_wrong_kind_error (f : StateFeature α) :
+    (∀ e, f.getDistanceUnit = .error e → e = .unexpectedFeatureUnit) ∧
+      (∀ e, f.getTimeUnit = .error e → e = .unexpectedFeatureUnit) ∧
+      (∀ e, f.getEnergyUnit = .error e → e = .unexpectedFeatureUnit) ∧
+      (∀ e, f.getCustomFeatureFormat = .error e → e = .unexpectedFeatureUnit) := by
+  cases f <;>
+    simp [StateFeature.getDistanceUnit, StateFeature.getTimeUnit, StateFeature.getEnergyUnit,
+      StateFeature.getCustomFeatureFormat] <;> (intros; simp_all)
+
+/-- `==` on features is an equivalence that only sees the kind (and a custom feature's two names) -/
+theorem feature_eq_is_equivalence (f g h : StateFeature α) :
+    f.eqv f = true ∧ (f.eqv g = g.eqv f) ∧ (f.eqv g = true → g.eqv h = true → f.eqv h = true) := by
+  refine ⟨?_, ?_, ?_⟩
+  · cases f <;> simp [StateFeature.eqv]
+  · cases f <;> cases g <;> simp only [StateFeature.eqv]
+    rename_i t1 u1 _ t2 u2 _
+    rw [BEq.comm (a := t1), BEq.comm (a := u1)]
+  · cases f <;> cases g <;> cases h <;> simp [StateFeature.eqv]
+    rintro rfl rfl rfl rfl; exact ⟨rfl, rfl⟩
+
+section codec
+variable [Lit α] [IntCodec α] [LT α] [DecidableLT α] [BEq α]
+
+theorem get_feature_format_eq (f : StateFeature α) :
+    f.getFeatureFormat = match f with
+      | .custom _ _ fmt => fmt
+      | _ => .floatingPoint zero := by
+  cases f <;> rfl
+
+/-! ### `custom_feature_format.rs`: every encoder / decoder accepts exactly its own format -/
+
+theorem encode_f64_ok_iff (fmt : CustomFeatureFormat α) (x y : α) :
+    fmt.encodeF64 x = .ok y ↔ (∃ i, fmt = .floatingPoint i) ∧ y = x := by
+  cases fmt <;> simp [CustomFeatureFormat.encodeF64, eq_comm]
+
+theorem encode_i64_ok_iff (fmt : CustomFeatureFormat α) (x : Int) (y : α) :
+    fmt.encodeI64 x = .ok y ↔ (∃ i, fmt = .signedInteger i) ∧ y = IntCodec.ofInt x := by
+  cases fmt <;> simp [CustomFeatureFormat.encodeI64, eq_comm]
+
+theorem encode_u64_ok_iff (fmt : CustomFeatureFormat α) (x : Nat) (y : α) :
+    fmt.encodeU64 x = .ok y ↔ (∃ i, fmt = .unsignedInteger i) ∧ y = IntCodec.ofInt (Int.ofNat x) := by
+  cases fmt <;> simp [CustomFeatureFormat.encodeU64, eq_comm]
+
+theorem encode_bool_ok_iff (fmt : CustomFeatureFormat α) (x : Bool) (y : α) :
+    fmt.encodeBool x = .ok y ↔ (∃ i, fmt = .boolean i) ∧ y = (if x then one else zero) := by
+  cases fmt <;> simp [CustomFeatureFormat.encodeBool, eq_comm]
+
+/-- a wrong-format encoder reports `EncodeError`, a wrong-format decoder `DecodeError`; the only other
+    error is the `ValueError` of `decode_u64` on a negative value -/
+theorem codec_errors (fmt : CustomFeatureFormat α) (x : α) (i : Int) (n : Nat) (b : Bool) (e : StateErr) :
+    (fmt.encodeF64 x = .error e → e = .encode) ∧ (fmt.encodeI64 i = .error e → e = .encode) ∧
+      (fmt.encodeU64 n = .error e → e = .encode) ∧ (fmt.encodeBool b = .error e → e = .encode) ∧
+      (fmt.decodeF64 x = .error e → e = .decode) ∧ (fmt.decodeI64 x = .error e → e = .decode) ∧
+      (fmt.decodeBool x = .error e → e = .decode) ∧
+      (fmt.decodeU64 x = .error e → e = .decode ∨ (e = .value ∧ x < zero)) := by
+  refine ⟨?_, ?_, ?_, ?_, ?_, ?_, ?_, ?_⟩
+  all_goals intro h
+  all_goals cases fmt
+  all_goals simp only [CustomFeatureFormat.encodeF64, CustomFeatureFormat.encodeI64,
+    CustomFeatureFormat.encodeU64, CustomFeatureFormat.encodeBool, CustomFeatureFormat.decodeF64,
+    CustomFeatureFormat.decodeI64, CustomFeatureFormat.decodeU64, CustomFeatureFormat.decodeBool] at h
+  all_goals first
+    | (cases h; done)
+    | (cases h; rfl)
+    | (cases h; exact Or.inl rfl)
+    | (split_ifs at h with hx <;> first | (cases h; exact Or.inr ⟨rfl, hx⟩) | cases h)
+
+theorem decode_f64_ok_iff (fmt : CustomFeatureFormat α) (x y : α) :
+    fmt.decodeF64 x = .ok y ↔ (∃ i, fmt = .floatingPoint i) ∧ y = x := by
+  cases fmt <;> simp [CustomFeatureFormat.decodeF64, eq_comm]
+
+theorem decode_i64_ok_iff (fmt : CustomFeatureFormat α) (x : α) (y : Int) :
+    fmt.decodeI64 x = .ok y ↔ (∃ i, fmt = .signedInteger i) ∧ y = IntCodec.toI64 x := by
+  cases fmt <;> simp [CustomFeatureFormat.decodeI64, eq_comm]
+
+theorem decode_u64_ok_iff (fmt : CustomFeatureFormat α) (x : α) (y : Nat) :
+    fmt.decodeU64 x = .ok y ↔ (∃ i, fmt = .unsignedInteger i) ∧ ¬ x < zero ∧ y = IntCodec.toU64 x := by
+  cases fmt <;> simp [CustomFeatureFormat.decodeU64]
+  split_ifs with hx
+  · simp [hx]
+  · simp only [Except.ok.injEq, hx, not_false_eq_true, true_and]; exact eq_comm
+
+theorem decode_bool_ok_iff (fmt : CustomFeatureFormat α) (x : α) (y : Bool) :
+    fmt.decodeBool x = .ok y ↔ (∃ i, fmt = .boolean i) ∧ y = !(x == zero) := by
+  cases fmt <;> simp [CustomFeatureFormat.decodeBool]
+  cases (x == zero) <;> simp <;> try exact eq_comm
+
+/-- `initial()` never fails: every format encodes its own initial value -/
+theorem format_initial_ok (fmt : CustomFeatureFormat α) : ∃ y, fmt.initial = .ok y := by
+  cases fmt <;> exact ⟨_, rfl⟩
+
+end codec
+
+/-! ### `collect_features`: declaration order -/
+
+/-- the collected list is the model features in declaration order (traversal model first, then access
+    model; a later feature replaces an earlier one of the same name in place: names pairwise distinct,
+    each with its last declaration) followed by the query's features -/
+theorem collect_features_declaration_order (traversal access : List (String × StateFeature α))
+    (user : Option (List (String × StateFeature α))) (fs : List (String × StateFeature α))
+    (hc : collectFeatures traversal access user = .ok fs) :
+    fs = Spec.insertAll [] (traversal ++ access) ++ user.getD [] ∧
+      ((Spec.insertAll [] (traversal ++ access)).map (·.1)).Nodup ∧
+      (∀ name, Spec.get (Spec.insertAll [] (traversal ++ access)) name =
+        ((traversal ++ access).reverse.find? (fun e => e.1 = name)).map (·.2)) ∧
+      (∀ k, k ≤ (traversal ++ access).length → ∃ t,
+        (Spec.insertAll [] (traversal ++ access)).map (·.1) =
+          (Spec.insertAll [] ((traversal ++ access).take k)).map (·.1) ++ t) := by
+  have hfs : fs = HMap.ofList (traversal ++ access) ++ user.getD [] := by
+    simp only [collectFeatures] at hc
+    split at hc
+    · cases hc
+    · simp only [Except.ok.injEq] at hc
+      exact hc.symm
+  refine ⟨by rw [hfs, Spec.ofList_eq_insertAll], ?_, ?_, ?_⟩
+  · have := (Container.fromIter_refines (K := String) (traversal ++ access))
+    rw [← this.2]
+    exact Container.abs_keys_nodup this.1
+  · intro name
+    have := Spec.get_insertAll ([] : List (String × StateFeature α)) (traversal ++ access) name
+    rw [this]
+    cases (find? (fun e => decide (e.1 = name)) (traversal ++ access).reverse) <;> simp [Spec.get]
+  · intro k _
+    have hsplit : Spec.insertAll [] (traversal ++ access) =
+        Spec.insertAll (Spec.insertAll [] ((traversal ++ access).take k)) ((traversal ++ access).drop k) := by
+      conv_lhs => rw [← List.take_append_drop k (traversal ++ access)]
+      simp only [Spec.insertAll, foldl_append]
+    rw [hsplit]
+    exact Spec.keys_insertAll_prefix _ _
+
+/-- `collect_features` fails exactly when an entry of the query names no model feature
+    (`UnknownStateVariableName`) or one of another `get_feature_type` (`UnexpectedFeatureType`) -/
+theorem collect_features_ok_iff (traversal access : List (String × StateFeature α))
+    (user : Option (List (String × StateFeature α))) :
+    (∃ fs, collectFeatures traversal access user = .ok fs) ↔
+      ∀ e ∈ user.getD [], ∃ existing, Spec.get (Spec.insertAll [] (traversal ++ access)) e.1 = some existing ∧
+        existing.featureType = e.2.featureType := by
+  have hcheck : ∀ l : List (String × StateFeature α),
+      (collectFeatures.check (HMap.ofList (traversal ++ access)) l = .ok ()) ↔
+        ∀ e ∈ l, ∃ existing, HMap.get (HMap.ofList (traversal ++ access)) e.1 = some existing ∧
+          existing.featureType = e.2.featureType := by
+    intro l
+    induction l with
+    | nil => simp [collectFeatures.check]
+    | cons e r ih =>
+      obtain ⟨name, feature⟩ := e
+      simp only [collectFeatures.check, mem_cons, forall_eq_or_imp]
+      cases hg : HMap.get (HMap.ofList (traversal ++ access)) name with
+      | none => simp
+      | some existing =>
+        simp only [Option.some.injEq, exists_eq_left']
+        by_cases ht : existing.featureType = feature.featureType
+        · simp [ht, ih]
+        · simp [ht]
+  have hget : ∀ name, HMap.get (HMap.ofList (traversal ++ access)) name =
+      Spec.get (Spec.insertAll [] (traversal ++ access)) name := by
+    intro name
+    rw [Spec.ofList_eq_insertAll]
+    generalize Spec.insertAll [] (traversal ++ access) = l
+    induction l with
+    | nil => rfl
+    | cons e r ih => obtain ⟨k, v⟩ := e; simp only [HMap.get, Spec.get, ih]
+  simp only [← hget]
+  rw [← hcheck]
+  simp only [collectFeatures]
+  cases collectFeatures.check (HMap.ofList (traversal ++ access)) (user.getD []) with
+  | error e => simp
+  | ok u => cases u; simp
+
+end partDstate
+
+section partDjson
+variable {α : Type}
+open StateModel StateJson
+
+/-! ### `TryFrom<&serde_json::Value> for StateModel` and the serde derives -/
+
+theorem parse_features_names (ofBits : Nat → α) (kvs : List (String × Json))
+    (fs : List (String × StateFeature α)) (h : parseFeatures ofBits kvs = some fs) :
+    fs.map (·.1) = kvs.map (·.1) ∧
+      ∀ i (hi : i < kvs.length), ∃ f, parseFeature ofBits (kvs[i]).2 = some f ∧ fs[i]? = some ((kvs[i]).1, f) := by
+  induction kvs generalizing fs with
+  | nil => simp only [parseFeatures, Option.some.injEq] at h; subst h; simp
+  | cons e r ih =>
+    obtain ⟨name, j⟩ := e
+    simp only [parseFeatures] at h
+    cases hp : parseFeature ofBits j with
+    | none => rw [hp] at h; cases h
+    | some f =>
+      rw [hp] at h
+      cases hr : parseFeatures ofBits r with
+      | none => rw [hr] at h; cases h
+      | some fs' =>
+        rw [hr] at h
+        simp only [Option.some.injEq] at h
+        subst h
+        obtain ⟨h1, h2⟩ := ih fs' hr
+        refine ⟨by simp [h1], ?_⟩
+        intro i hi
+        cases i with
+        | zero => exact ⟨f, hp, by simp⟩
+        | succ k =>
+          obtain ⟨g, hg1, hg2⟩ := h2 k (by simpa using hi)
+          exact ⟨g, by simpa using hg1, by simpa using hg2⟩
+
+/-- `try_from` succeeds exactly on a JSON object all of whose rows are state features, and then is
+    `StateModel::new` of the rows in object order; its only error is `BuildError` -/
+theorem try_from_ok_iff (ofBits : Nat → α) (j : Json) (m : StateModel α) :
+    tryFrom ofBits j = .ok m ↔
+      ∃ kvs fs, j = .obj kvs ∧ parseFeatures ofBits kvs = some fs ∧ m = StateModel.new fs := by
+  cases j with
+  | obj kvs =>
+    simp only [tryFrom]
+    cases h : parseFeatures ofBits kvs with
+    | none => simp [h]
+    | some fs =>
+      simp only [Except.ok.injEq, Json.obj.injEq]
+      constructor
+      · intro hm; exact ⟨kvs, fs, rfl, h, hm.symm⟩
+      · rintro ⟨kvs', fs', rfl, h', rfl⟩
+        rw [h] at h'; simp only [Option.some.injEq] at h'; rw [h']
+  | _ => simp [tryFrom]
+
+theorem try_from_error_is_build (ofBits : Nat → α) (j : Json) (e : StateErr)
+    (h : tryFrom ofBits j = .error e) : e = .build := by
+  cases j with
+  | obj kvs =>
+    simp only [tryFrom] at h
+    cases hp : parseFeatures ofBits kvs with
+    | none => rw [hp] at h; cases h; rfl
+    | some fs => rw [hp] at h; cases h
+  | _ => simp only [tryFrom] at h; cases h; rfl
+
+/-- a configured `[state]` table: the model is well-formed whatever the table, and (keys of a JSON
+    object being pairwise distinct) the `i`-th row owns slot `i` -/
+theorem try_from_slots_in_key_order (ofBits : Nat → α) (kvs : List (String × Json)) (m : StateModel α)
+    (h : tryFrom ofBits (.obj kvs) = .ok m) :
+    WF m ∧ ((kvs.map (·.1)).Nodup → m.names = kvs.map (·.1) ∧ m.len = kvs.length ∧
+      ∀ i (hi : i < kvs.length), m.getIndex (kvs[i]).1 = some i) := by
+  obtain ⟨kvs', fs, hj, hp, rfl⟩ := (try_from_ok_iff ofBits _ m).mp h
+  simp only [Json.obj.injEq] at hj
+  subst hj
+  obtain ⟨hn, _⟩ := parse_features_names ofBits kvs fs hp
+  refine ⟨(wf_new fs).1, ?_⟩
+  intro nd
+  have nd' : (fs.map (·.1)).Nodup := by rw [hn]; exact nd
+  have hw := wf_new_of_nodup fs nd'
+  have hl : fs.length = kvs.length := by
+    have := congrArg List.length hn
+    simpa using this
+  refine ⟨by rw [names_eq hw.1, hw.2, hn], by rw [len_eq hw.1, hw.2, hl], ?_⟩
+  intro i hi
+  have hi' : i < fs.length := by rw [hl]; exact hi
+  have hk : (kvs[i]).1 = (fs[i]).1 := by
+    have := congrArg (fun l => l[i]?) hn
+    simp only [getElem?_map, getElem?_eq_getElem hi, getElem?_eq_getElem hi', Option.map_some,
+      Option.some.injEq] at this
+    exact this.symm
+  rw [hk]
+  exact new_slot fs nd' i hi'
+
+/-! ### `SearchApp::build_search_instance` -/
+
+/-- the steps fail in the code's order, each with its own error -/
+theorem build_search_instance_error_order (ofBits : Nat → α) (cfg : StateModel α)
+    (tr ac : List (String × StateFeature α)) (query : Json) (costOk frontierOk : StateModel α → Bool) :
+    buildSearchInstanceState ofBits cfg none (some ac) query costOk frontierOk = .error .traversal ∧
+      buildSearchInstanceState ofBits cfg none none query costOk frontierOk = .error .traversal ∧
+      buildSearchInstanceState ofBits cfg (some tr) none query costOk frontierOk = .error .access :=
+  ⟨rfl, rfl, rfl⟩
+
+/-- a successful `build_search_instance`: the per-query model is the configured model extended by the
+    collected features; it is well-formed (every slot theorem of Part B applies), configured features
+    keep their slots, new names are appended, and the cost and frontier services accepted it.  The
+    configured model is an argument that is only read: nothing of one query reaches the next. -/
+theorem build_search_instance_state (ofBits : Nat → α) (cfg m' : StateModel α) (h : WF cfg)
+    (tr ac : Option (List (String × StateFeature α))) (query : Json)
+    (costOk frontierOk : StateModel α → Bool)
+    (hb : buildSearchInstanceState ofBits cfg tr ac query costOk frontierOk = .ok m') :
+    WF m' ∧ (∀ name i, cfg.getIndex name = some i → m'.getIndex name = some i) ∧
+      (∃ t, m'.names = cfg.names ++ t) ∧ costOk m' = true ∧ frontierOk m' = true ∧
+      ∃ trf acf user fs, tr = some trf ∧ ac = some acf ∧ queryStateFeatures ofBits query = .ok user ∧
+        collectFeatures trf acf user = .ok fs ∧ cfg.extend fs = .ok m' := by
+  simp only [buildSearchInstanceState] at hb
+  cases tr with
+  | none => cases hb
+  | some trf =>
+    cases ac with
+    | none => cases hb
+    | some acf =>
+      simp only [collectFeaturesQuery] at hb
+      cases hq : queryStateFeatures ofBits query with
+      | error e => rw [hq] at hb; cases hb
+      | ok user =>
+        rw [hq] at hb
+        simp only at hb
+        cases hc : collectFeatures trf acf user with
+        | error e => rw [hc] at hb; cases hb
+        | ok fs =>
+          rw [hc] at hb
+          simp only at hb
+          cases he : cfg.extend fs with
+          | error e => rw [he] at hb; cases hb
+          | ok m =>
+            rw [he] at hb
+            simp only at hb
+            split_ifs at hb with h1 h2
+            simp only [Except.ok.injEq] at hb
+            subst hb
+            obtain ⟨hw, hkeep, hnames, _⟩ := extend_keeps_slots cfg m h fs he
+            refine ⟨hw, hkeep, hnames, ?_, ?_, trf, acf, user, fs, rfl, rfl, rfl, hc, he⟩
+            · simpa using h1
+            · simpa using h2
+
+/-- a malformed `state_features` (present, but not an object of state features) is a `BuildError`;
+    an absent one — or a query that is no JSON object — is no override -/
+theorem query_state_features_cases (ofBits : Nat → α) (query : Json) :
+    (Json.get? query "state_features" = none →
+      queryStateFeatures ofBits query = (.ok none : Except StateErr (Option (List (String × StateFeature α))))) ∧
+    (∀ v, Json.get? query "state_features" = some v → (∀ kvs, v ≠ .obj kvs) →
+      queryStateFeatures ofBits query = (.error .build : Except StateErr (Option (List (String × StateFeature α))))) ∧
+    (∀ kvs, Json.get? query "state_features" = some (.obj kvs) →
+      queryStateFeatures ofBits query =
+        match parseFeatures ofBits kvs with
+        | some fs => .ok (some fs)
+        | none => .error .build) := by
+  refine ⟨?_, ?_, ?_⟩
+  · intro h; simp [queryStateFeatures, h]
+  · intro v h hv
+    cases v with
+    | obj kvs => exact absurd rfl (hv kvs)
+    | _ => simp only [queryStateFeatures, h]
+  · intro kvs h
+    simp only [queryStateFeatures, h]
+    cases parseFeatures ofBits kvs <;> rfl
+
+end partDjson
+
+section partDserde
+variable {α : Type} [IntCodec α]
+open StateJson
+
+theorem unit_name_roundtrip :
+    (∀ u : DistanceUnit, DistanceUnit.ofName? u.name = some u) ∧
+      (∀ u : TimeUnit, TimeUnit.ofName? u.name = some u) ∧
+      (∀ u : EnergyUnit, EnergyUnit.ofName? u.name = some u) := by
+  refine ⟨?_, ?_, ?_⟩ <;> intro u <;> cases u <;> decide
+
+/-- integers a custom format can hold in the code (`i64`, `u64`) -/
+def FormatInRange : StateFeature α → Prop
+  | .custom _ _ (.signedInteger i) => -(2 ^ 63 : Int) ≤ i ∧ i < 2 ^ 63
+  | .custom _ _ (.unsignedInteger k) => k < 2 ^ 64
+  | _ => True
+
+/-- `Deserialize` inverts `Serialize` on every state feature: what `serialize_state_model` (or a
+    query writer using the same derive) prints for a feature reads back as that feature.  `hnum`: a
+    number written for `x` reads back as `x`; `hI` / `hU`: the decimal lexeme of an in-range integer is
+    read back as that integer (facts about number lexemes, outside this model). -/
+theorem parse_serialized_feature (ofBits : Nat → α) (toNum : α → Json)
+    (hnum : ∀ x, ∃ l b, toNum x = .num l b ∧ ofBits b = x)
+    (hI : ∀ (i : Int) b, -(2 ^ 63 : Int) ≤ i → i < 2 ^ 63 → Json.asI64? (.num (toString i) b) = some i)
+    (hU : ∀ (n : Nat) b, n < 2 ^ 64 → Json.asU64? (.num (toString (Int.ofNat n)) b) = some n)
+    (f : StateFeature α) (hr : FormatInRange f) :
+    parseFeature ofBits (featureToJson toNum f) = some f := by
+  obtain ⟨hd, ht, he⟩ := unit_name_roundtrip
+  cases f with
+  | distance u i =>
+    obtain ⟨l, b, h1, h2⟩ := hnum i
+    simp (config := { decide := true }) [parseFeature, parseDistance, featureToJson, field, Json.lookup,
+      parseUnit, parseF64, hd, h1, h2]
+  | time u i =>
+    obtain ⟨l, b, h1, h2⟩ := hnum i
+    simp (config := { decide := true }) [parseFeature, parseDistance, parseTime, featureToJson, field,
+      Json.lookup, parseUnit, parseF64, ht, h1, h2]
+  | energy u i =>
+    obtain ⟨l, b, h1, h2⟩ := hnum i
+    simp (config := { decide := true }) [parseFeature, parseDistance, parseTime, parseEnergy,
+      featureToJson, field, Json.lookup, parseUnit, parseF64, he, h1, h2]
+  | custom t un fmt =>
+    cases fmt with
+    | floatingPoint i =>
+      obtain ⟨l, b, h1, h2⟩ := hnum i
+      simp (config := { decide := true }) [parseFeature, parseDistance, parseTime, parseEnergy,
+        parseCustom, featureToJson, formatToJson, field, Json.lookup, parseString, parseFormat,
+        parseInitial, parseF64, h1, h2]
+    | signedInteger i =>
+      obtain ⟨l, b, h1, _⟩ := hnum (IntCodec.ofInt i)
+      have h3 := hI i b hr.1 hr.2
+      have e : toString i = i.repr := rfl
+      rw [e] at h3
+      simp (config := { decide := true }) [parseFeature, parseDistance, parseTime, parseEnergy,
+        parseCustom, featureToJson, formatToJson, field, Json.lookup, parseString, parseFormat,
+        parseInitial, parseI64, intNum, h1, h3]
+    | unsignedInteger k =>
+      obtain ⟨l, b, h1, _⟩ := hnum (IntCodec.ofInt (Int.ofNat k))
+      have hk : k < 2 ^ 64 := hr
+      have h3 := hU k b hk
+      have e : toString (Int.ofNat k) = (Int.ofNat k).repr := rfl
+      rw [e] at h3
+      simp only [Int.ofNat_eq_coe] at h1 h3
+      simp (config := { decide := true }) [parseFeature, parseDistance, parseTime, parseEnergy,
+        parseCustom, featureToJson, formatToJson, field, Json.lookup, parseString, parseFormat,
+        parseInitial, parseU64, intNum, h1, h3]
+    | boolean i =>
+      simp (config := { decide := true }) [parseFeature, parseDistance, parseTime, parseEnergy,
+        parseCustom, featureToJson, formatToJson, field, Json.lookup, parseString, parseFormat,
+        parseInitial, Json.asBool?]
+
+end partDserde
+
+/-! ### non-vacuity of Part D -/
+
+section partDexamples
+open StateJson
+
+def sixRows : Json := .obj
+  [("f2", .obj [("distance_unit", .str "kilometers"), ("initial", .num "0.0" 0)]),
+   ("f0", .obj [("time_unit", .str "minutes"), ("initial", .num "3" 3)]),
+   ("f1", .obj [("type", .str "soc"), ("unit", .str "percent"),
+      ("format", .obj [("floating_point", .obj [("initial", .num "0.0" 0)])])]),
+   ("f5", .obj [("energy_unit", .obj [("kilowatt_hours", .null)]), ("initial", .num "1" 1), ("note", .str "x")]),
+   ("f4", .obj [("type", .str "count"), ("unit", .str "n"), ("format", .obj [("floating_point", .arr [.num "-4" 0])])]),
+   ("f3", .obj [("type", .str "flag"), ("unit", .str "b"), ("format", .obj [("boolean", .obj [("initial", .bool true)])])])]
+
+/-- a six-row `[state]` table in the shapes serde accepts: accepted, the sixth row owns slot 5 -/
+example : ∃ m, tryFrom (fun b => (b : ℚ)) sixRows = .ok m ∧ m.len = 6 ∧ m.getIndex "f3" = some 5 ∧
+    m.getIndex "f2" = some 0 := by
+  refine ⟨_, rfl, ?_⟩
+  decide
+
+/-- rejected rows: the custom-feature shape shown in the doc comments of `state_model.rs` /
+    `state_feature.rs` (`name` / internally tagged `format`), a sequence, a number for a boolean -/
+example :
+    parseFeature (fun b => (b : ℚ)) (.obj [("name", .str "soc"), ("unit", .str "percent"),
+      ("format", .obj [("type", .str "floating_point"), ("initial", .num "0.0" 0)])]) = none ∧
+    parseFeature (fun b => (b : ℚ)) (.arr [.str "miles", .num "1.0" 1]) = none ∧
+    parseFeature (fun b => (b : ℚ)) (.obj [("type", .str "c"), ("unit", .str "n"),
+      ("format", .obj [("boolean", .obj [("initial", .num "1" 1)])])]) = none ∧
+    (∃ e, tryFrom (fun b => (b : ℚ)) (.arr [sixRows]) = .error e) := by
+  refine ⟨by decide, by decide, by decide, ⟨_, rfl⟩⟩
+
+/-- declaration order with a repeated name: the access model's `a` replaces the traversal model's in
+    place, the new name `c` goes last -/
+example :
+    (collectFeatures (α := ℚ) [("a", .distance .miles 0), ("b", .time .hours 0)]
+      [("a", .distance .feet 5), ("c", .energy .kilowattHours 0)] none).toOption.map
+        (fun fs => fs.map (fun p => (p.1, p.2.featureUnitName))) =
+    some [("a", "feet"), ("b", "hours"), ("c", "kilowatt_hours")] := by
+  decide
+
+end partDexamples
 
 end C11
 end Compass
